@@ -4,13 +4,26 @@ import os
 
 VERIF = os.path.dirname(os.path.dirname(os.path.abspath(__file__)))
 
-CHECKS = {
-    "C12": dict(
-        technique="TLA+ spec RtpRouter.tla model-checked with TLC; TLC-simulated behaviours replayed into the real RtpRouter; recorded executions validated by TraceRouter.tla (TLC trace validation)",
-        text="Exhaustive TLC check of the routing design (all register/unregister/packet histories of a small universe) plus conformance of the real RtpRouter to the spec's routing rules in both directions: every recorded routing decision is judged by the TLA+ rule operators.",
-        note="Trusted: TLC, the harness' packet construction, REMB media SSRC 0 unregistered. Conformance is sampled (simulated + seeded random histories), the design check is exhaustive within the stated constants.",
-        design_ref="5/C12"),
-}
+def discover():
+    """Each check module harness/cNN_*.py carries a literal `MANIFEST = dict(...)`/{...}
+    (technique, text, note, design_ref[, category]); read it without importing."""
+    import ast
+    import glob
+    res = {}
+    for p in sorted(glob.glob(os.path.join(VERIF, "harness", "c[0-9][0-9]_*.py"))):
+        pid = "C" + os.path.basename(p)[1:3]
+        tree = ast.parse(open(p).read())
+        for node in tree.body:
+            if isinstance(node, ast.Assign) and any(getattr(t, "id", None) == "MANIFEST" for t in node.targets):
+                v = node.value
+                if isinstance(v, ast.Call):   # dict(k=v, ...)
+                    res[pid] = {kw.arg: ast.literal_eval(kw.value) for kw in v.keywords}
+                else:
+                    res[pid] = ast.literal_eval(v)
+    return res
+
+
+CHECKS = discover()
 
 NOT_YET = {}
 
